@@ -456,7 +456,21 @@ fn lock_case() -> impl Strategy<Value = LockCase> {
 			1 => (0u8..4).prop_map(LockOp::KeepReader),
 			1 => Just(LockOp::DropReaders),
 		];
-		proptest::collection::vec(op, 2..14).prop_map(move |ops| LockCase { actors: actors.clone(), ops, race, with_pending_logs, modes: modes[..actors.len()].to_vec() })
+		// one script in six contains the whole life of a stale tree reader: taken from a holder,
+		// kept beyond its handle, dropped while the NEXT holder is alive, then a further open
+		let stale = prop_oneof![5 => Just(None), 1 => (any::<u8>(), 0usize..14).prop_map(Some)];
+		(proptest::collection::vec(op, 2..14), stale).prop_map(move |(mut ops, stale)| {
+			let n = actors.len() as u8;
+			let locals: Vec<u8> = (0..n).filter(|a| !actors[*a as usize]).collect();
+			if let (Some((sel, at)), false) = (stale, locals.is_empty()) {
+				let a = locals[sel as usize % locals.len()];
+				let (b, c) = ((a + 1) % n, (a + 2) % n);
+				let block = vec![LockOp::Drop(b), LockOp::Drop(c), LockOp::Open(a), LockOp::KeepReader(a), LockOp::Drop(a), LockOp::Open(b), LockOp::DropReaders, LockOp::Open(c)];
+				let at = at.min(ops.len());
+				ops.splice(at..at, block);
+			}
+			LockCase { actors: actors.clone(), ops, race, with_pending_logs, modes: modes[..actors.len()].to_vec() }
+		})
 	})
 }
 
